@@ -13,4 +13,5 @@ func moreFacts() {
 	c05Facts()
 	c10Facts()
 	c06Facts()
+	purgeFacts()
 }
